@@ -9,6 +9,7 @@ pub mod c08;
 pub mod c11;
 pub mod c12;
 pub mod c13;
+pub mod c16;
 pub mod c20;
 
 use crate::engine::Prop;
@@ -27,6 +28,7 @@ pub fn lookup(id: &str) -> Option<Arc<dyn Prop>> {
         "C11" => Arc::new(c11::C11),
         "C12" => Arc::new(c12::C12),
         "C13" => Arc::new(c13::C13),
+        "C16" => Arc::new(c16::C16),
         "C20" => Arc::new(c20::C20),
         _ => return None,
     })
